@@ -2414,6 +2414,10 @@ theorem parseFloat_decimal_exp_sound (sgn : List Nat) (hsg : sgn = [] ∨ sgn = 
   simp only [C06.parseFloat, Spec.parseFloat, trim_plain _ hplain, hstrip]
   exact parseFloat_whole _ _ hspec hpf
 
+/-- the shared Base model of parseNumber (used by the C05, C08, C09, C13, C15 drivers) is definitionally the
+    C06 model, so every ToNumber theorem above is a theorem about `PN.parseNumber` -/
+theorem pn_parseNumber_eq (s : Str) : OttoVerif.PN.parseNumber s = stringToNumber s := rfl
+
 end ToNumber
 
 /-- `toNumber_decimal_sound` instances: "-12.50", ".5", "007" -/
